@@ -23,6 +23,7 @@ mod c16;
 mod c20; // C20
 mod c15;
 mod c11; // C11
+mod c06;
 
 use std::io::{BufRead, Write};
 
@@ -41,6 +42,7 @@ fn main() {
             let out = std::io::stdout();
             let mut out = std::io::BufWriter::new(out.lock());
             let lines = match prop {
+                "C06" => c06::gen(tier, seed),
                 "C11" => c11::gen(tier, seed), // C11
                 "C15" => c15::gen(tier, seed),
                 "C20" => c20::gen(tier, seed), // C20
